@@ -232,7 +232,7 @@ CLAIMS["C01"].update(
         "and containers, any programs and ANY schedule, no thread ever faults and no step touches the count of a destroyed value (C01_no_fault_events: no fault event at all); "
         "at every count access the value's count is >= 1 (no_dead_access), on the fast path, the fallback and the helped path, for any number of guards, with freed addresses "
         "reused at the scheduler's choice. " + MASTER + TIE + " Any FAULT of the harness arena or the model is a finding; the executable protection invariants run on every state.",
-   note=NOTE + "Objects are untyped: the type confusion of known finding D3 (listed under C12, reproduced by harness/typed) is outside this theorem. Sequentially consistent interleavings (weak-memory executions: C07). The generation wrap is outside RunOK (C13 proves no panic there; correspondence with preset counters). "
+   note=NOTE + "Objects are untyped: the type confusion of known finding D3 (listed under C12, reproduced by harness/typed) is outside this theorem. Sequentially consistent interleavings except: The Relaxed first read of the fast path may be stale: Stale.step_stale answers it with ANY non-null value the schedule chooses and the theorems are re-proved for such runs (StaleInv*.v, scope RunOKS, pinned as *_stale; the correspondence runs the real crate with the hook shim answering that read with an older value of the location: policy 'stale'). Other weak-memory behaviour: C07. The generation wrap is outside RunOK (C13 proves no panic there; correspondence with preset counters). "
         "Cache commands are outside RunOK (C16).",
    technique="Rocq/Coq proof (inductive invariant over all schedules: accounting + protection + exchange of finite sums) + trace correspondence")
 CLAIMS["C02"].update(
@@ -241,7 +241,7 @@ CLAIMS["C02"].update(
         "positive; C02_quiescent_counts - when no operation is in progress the count equals containers + handles minus the debts still in slots; C02_no_owner_destroyed - a "
         "value nobody owns has count 0, is destroyed, and no slot holds it; the destructor runs in the very step whose decrement finds the count at 1 (tight). " + MASTER + TIE +
         " The same equation is evaluated by the model driver on every state of every run, the final-state dump (all strong counts, slots, containers, live objects) must equal the model's.",
-   note=NOTE + "Cache commands and the generation wrap are outside RunOK.",
+   note=NOTE + "Cache commands and the generation wrap are outside RunOK (accounting with them: CchAcc, C02_accounting_wrap). Also proved with stale first reads of the fast path (C02_accounting_stale, RunOKS).",
    technique="Rocq/Coq proof (inductive counting invariant over all schedules, finitely supported sums) + trace correspondence + executable invariant on every state")
 CLAIMS["C03"].update(
    text="Coq theorem C03_load_linearizable over ASModel (runs instrumented with a clock and the latest time each container held each value), " + RUNOK + ", any schedule: a completed "
@@ -250,7 +250,7 @@ CLAIMS["C03"].update(
         "GenInv; the envelope is not overwritten before the reader takes it: EnvInv); with the write chain (all writes of a container form ONE chain, all schedules) this gives the "
         "real-time and per-thread monotonicity clauses. Defect D8 (a load returning another container's value) was found by planning this proof and repaired (83d9f2e). " + TIE +
         " History oracle on every trace; grids of the D8 and stale-replacement schedule shapes.",
-   note=NOTE + "Stale relaxed reads are not modelled (orderings: C07); loads inside compare_and_swap/rcu/cache are not claimed here (C05/C06/C16).",
+   note=NOTE + "The Relaxed first read of the fast path may be stale: Stale.step_stale answers it with ANY non-null value the schedule chooses and the theorems are re-proved for such runs (StaleInv*.v, scope RunOKS, pinned as *_stale; the correspondence runs the real crate with the hook shim answering that read with an older value of the location: policy 'stale'). Other weak-memory behaviour: C07. Loads inside compare_and_swap/rcu/cache are not claimed here (C05/C06/C16).",
    technique="Rocq/Coq proof (instrumented runs, inductive invariant over all schedules) + trace correspondence with a history oracle")
 CLAIMS["C09"].update(
    text="Coq theorems over ASModel: (ProgressW) from every state satisfying the inductive invariant WF2 - hence every reachable state - a thread running alone while all others are "
